@@ -323,6 +323,10 @@ def _gen_perturb(S, cfg, m, h):
             else:
                 cur.insert(j, list(cur[j]))
             ev = {'act': 'setloc', 'obj': h, 'loc': loc, 'mods': cur, 'why': 'perturb-' + kind}
+            if not cur and loc[0] == 'interval':
+                # the last modification of an interval was dropped: the client either clears the list it holds
+                # (leaving an empty list in place) or removes it
+                ev['empty_list'] = S.coin(0.6)
             _set_loc(m, loc, cur)
             return ev
         if kind == 'position':
@@ -861,8 +865,14 @@ def _exec_event(run, ev_i, ev):
             hit = [iv for iv in new if iv.start == ms and iv.end == me]
             if len(hit) != 1:
                 return False
-            hit[0].mods = val or None
-            x.intervals = new
+            live = [iv for iv in ivs if iv.start == ms and iv.end == me]
+            if not val and ev.get('empty_list') and live[0].mods:
+                # the client clears, in place, the modification list of the interval it holds
+                del live[0].mods[:]
+                out.probes['interval_left_with_empty_mod_list'] += 1
+            else:
+                hit[0].mods = val or None
+                x.intervals = new
         _set_loc(m, loc, ev['mods'])
         out.probes[ev.get('why', 'setloc')] += 1
     elif act == 'move':
